@@ -17,6 +17,8 @@ import os
 import re
 import time
 
+EXTRA_PROP_MODULES = [("KB.Props.OrderC19", "KB.OrderC19")]
+
 from .. import core
 
 LEVEL_NOTE = ("partial: proved = the lock discipline implies race freedom in an abstract trace model (mutex / RW-mutex / "
